@@ -486,7 +486,7 @@ func runC02(c *wk.Ctx) {
 	c.Floor("verdict:must-reject", 2000)
 	c.Floor("broken_natives", 300)
 	c.Floor("native_form_checks", 2000)
-	nSampled := c.N(15000, 400000)
+	nSampled := c.N(15000, 3000000)
 	total := int64(len(enum)) + nSampled
 	built := map[*gen.Shape]schema.Type{}
 	c.Cases(total, func(idx int64, r *wk.Rand) {
